@@ -25,6 +25,11 @@ PROPS = {
             "rule": "all compositions of the acknowledgement sizes around the header/body edge for a small response, then random header sets, body writes and acknowledgement pieces"},
     "C19": {"count": {"quick": 2500, "thorough": 50000}, "trusted": SOCK_TRUSTED,
             "rule": "1-3 concatenated requests (valid, malformed, garbage) x segmentations x handler behaviours (respond+close at once, later, never) x post-close API calls x late transport events"},
+    "C16": {"count": {"quick": 400, "thorough": 6000},
+            "trusted": ["translated from the C++ on every run (tools/cxx2lean.py, clang-14 AST): Range::from/to/length/isValid/dataSize and the numeric constructor; bridge theorems QhttpBridge.Range prove them equal to the hand model",
+                        "modelled, not verified: the string constructor (QRegExp ^(\\d*)-(\\d*)$, QString::trimmed, QString::toInt) for ASCII text, QString::number; validated by the exhaustive/boundary correspondence runs",
+                        "qint64 modelled as Int; theorem no_overflow shows no intermediate leaves 64 bits for magnitudes < 2^62"],
+            "rule": "exhaustive cube of (from,to,size) over [-K,K]^3 through the numeric constructor, all strings over {0,7,-,space,x,1} up to length L with five sizes, then boundary-biased numbers (around 2^31, 2^62) through numeric/assignment/copy-with-size/string construction; every accessor and the Content-Range text compared"},
 }
 
 LEVEL = {
@@ -40,6 +45,8 @@ LEVEL = {
          "SimTcp acknowledgements stand for QTcpSocket::bytesWritten."),
  "C19": ("Theorems: headersParsed at most once per run, the wire is frozen once the transport is closed, disconnect follows the last acknowledgement; tie: pipelined/garbage streams x handler behaviours x post-close calls on the real Socket.",
          "as C02/C03."),
+ "C16": ("Theorems over Int (every offset and size): valid => 0<=from<=to<size, length, text; invalid => -1 and */size; valid iff one of the three shapes; string forms; copy/resize preserve bounds; the accessor code is regenerated from range.cpp on every run and bridge-proved equal to the model, and the compiled class is compared with the model on an exhaustive cube and on all short strings.",
+         "string constructor modelled for ASCII text only; QRegExp/QString are Qt."),
 }
 for _k, _v in LEVEL.items():
     PROPS[_k]["level_text"], PROPS[_k]["level_note"] = _v
@@ -48,4 +55,5 @@ NOT_APPLICABLE = {}
 
 # bridge modules (theorems Gen = Model over the regenerated QhttpGen/*.lean) each property depends on
 BRIDGES = {
+    "C16": ["QhttpBridge.Range"],
 }
